@@ -16,15 +16,15 @@ import (
 
 func init() {
 	register(&Property{
-		ID:        "C11",
-		Title:     "String literals denote exactly the intended string",
-		Technique: "static analysis: shape classification of the literal decoder as a pipeline of string transformers extracted from SSA; single-pass replacer table compared with the escape set read out of ZitiQl.g4; for multi-pass chains an exhaustive critical-pair computation on the extracted pairs (bounded words) against the single-pass reading; provenance rule from the STRING token to StringConstNode.value",
-		LevelText: "Decides that the decoder of string literals is a single left-to-right pass over exactly the escape pairs the grammar allows (or, for a chain of replace passes, that the chain is equivalent to such a pass on all words up to length 6 over the escape alphabet, naming a witness otherwise), that exactly one leading and one trailing quote are stripped, and that nothing else rewrites the value between the lexer token and the constant node. Does not decide that the generated lexer accepts exactly the grammar's STRING language (no ANTLR tool to regenerate) nor Unicode normalisation.",
-		LevelNote: "Trusted: go/types, x/tools SSA, strings.Replacer semantics (leftmost, argument-order priority, single pass), the generated lexer.",
-		DesignRef: "DESIGN.md C11",
+		ID:          "C11",
+		Title:       "String literals denote exactly the intended string",
+		Technique:   "static analysis: shape classification of the literal decoder as a pipeline of string transformers extracted from SSA; single-pass replacer table compared with the escape set read out of ZitiQl.g4; for multi-pass chains an exhaustive critical-pair computation on the extracted pairs (bounded words) against the single-pass reading; provenance rule from the STRING token to StringConstNode.value",
+		LevelText:   "Decides that the decoder of string literals is a single left-to-right pass over exactly the escape pairs the grammar allows (or, for a chain of replace passes, that the chain is equivalent to such a pass on all words up to length 6 over the escape alphabet, naming a witness otherwise), that exactly one leading and one trailing quote are stripped, and that nothing else rewrites the value between the lexer token and the constant node. Does not decide that the generated lexer accepts exactly the grammar's STRING language (no ANTLR tool to regenerate) nor Unicode normalisation.",
+		LevelNote:   "Trusted: go/types, x/tools SSA, strings.Replacer semantics (leftmost, argument-order priority, single pass), the generated lexer.",
+		DesignRef:   "DESIGN.md C11",
 		Explanation: "Sites: zitiql.ParseZqlString (located by provenance from the STRING case of ToBoltListener.VisitTerminal), the package-level replacer it uses, the ESC fragment of zitiql/ZitiQl.g4.",
-		Trusted:   []string{"go/types", "golang.org/x/tools/go/ssa v0.29.0", "strings.Replacer", "generated ZitiQl lexer"},
-		Rules:     rulesC11,
+		Trusted:     []string{"go/types", "golang.org/x/tools/go/ssa v0.29.0", "strings.Replacer", "generated ZitiQl lexer"},
+		Rules:       rulesC11,
 	})
 }
 
@@ -78,6 +78,19 @@ func rulesC11(c *Ctx) {
 		want[`\`+string(ch)] = mv
 	}
 	c.Note(fmt.Sprintf("grammar escape set: %q", string(escChars)))
+	// unescaped characters: SAFECODEPOINT must exclude the quote, the backslash and control characters,
+	// otherwise `\\"` is ambiguous (escaped backslash + closing quote vs backslash + escaped quote)
+	reSafe := regexp.MustCompile(`(?m)^\s*fragment\s+SAFECODEPOINT\s*:\s*~\s*\[((?:\\.|[^\]\\])*)\]\s*;`)
+	if ms := reSafe.FindSubmatch(g4); ms == nil {
+		c.Undecided("C11.TABLE", "zitiql/ZitiQl.g4: fragment SAFECODEPOINT", "-", "SAFECODEPOINT is no longer a negated character set; cannot check which characters need escaping")
+	} else {
+		body := string(ms[1])
+		hasQuote := strings.Contains(body, `"`)
+		hasBackslash := strings.Contains(body, `\\`)
+		hasCtl := strings.Contains(strings.ToUpper(body), `\U0000-\U001F`)
+		c.Check(hasQuote && hasBackslash && hasCtl, "C11.TABLE", "zitiql/ZitiQl.g4: SAFECODEPOINT", "-", "unescaped string characters exclude the double quote, the backslash and control characters", "SAFECODEPOINT admits a quote, backslash or control character unescaped ("+body+"): literals containing them become ambiguous or run into the following literal")
+	}
+	ruleC01Seek(c)
 
 	// --- locate the decoder from the STRING token ------------------------------------------
 	vt := p.SSAFunc(p.Method("ast", "ToBoltListener", "VisitTerminal"))
